@@ -71,9 +71,14 @@ pub fn drive_hostile(t: &mut Tracer, rq: RqCfg, stream: &[u8], arrivals: &[usize
             }
             FlowBox::SendRequest(mut f) => {
                 let mut buf = vec![0u8; 8192];
-                if guarded(|| f.write(&mut buf)).is_none() {
-                    t.ev(json!({"ev":"panic","during":"head write"}));
-                    return;
+                for _ in 0..400 {
+                    if guarded(|| f.can_proceed()).unwrap_or(true) {
+                        break;
+                    }
+                    if guarded(|| f.write(&mut buf)).is_none() {
+                        t.ev(json!({"ev":"panic","during":"head write"}));
+                        return;
+                    }
                 }
                 fb = match guarded(|| f.proceed()) {
                     Some(Ok(Some(ureq_proto::client::flow::SendRequestResult::Await100(x)))) => FlowBox::Await100(x),
